@@ -32,7 +32,7 @@ package search
 //@ func NumericRangeFacets.Add
 //@   props C09 C10
 //@   mode int
-//@   requires numericRangeFacet != nil && forall(k, 0, len(nrf), nrf[k] != nil && nrf[k] != numericRangeFacet && nrf[k].Count >= 0 && nrf[k].Count <= 4611686018427387904) && numericRangeFacet.Count >= 0 && numericRangeFacet.Count <= 4611686018427387904
+//@   requires numericRangeFacet != nil && forall(k, 0, len(nrf), nrf[k] != nil && nrf[k] != numericRangeFacet && nrf[k].Count >= 0 && nrf[k].Count <= 2305843009213693952) && numericRangeFacet.Count >= 0 && numericRangeFacet.Count <= 2305843009213693952
 //@   requires forall(p, 0, len(nrf), forall(q, p+1, len(nrf), nrf[p] != nrf[q]))
 //@   modifies NumericRangeFacet.Count, nrf[*]
 //@   ensures implies(forall(k, 0, len(nrf), !sameNR(numericRangeFacet, nrf[k])), len(result) == len(nrf) + 1 && result[len(nrf)] == numericRangeFacet && forall(k, 0, len(nrf), result[k] == nrf[k]) && all(x, *NumericRangeFacet, x.Count == old(x.Count)))
@@ -42,7 +42,7 @@ package search
 //@ func DateRangeFacets.Add
 //@   props C09 C10
 //@   mode int
-//@   requires dateRangeFacet != nil && forall(k, 0, len(drf), drf[k] != nil && drf[k] != dateRangeFacet && drf[k].Count >= 0 && drf[k].Count <= 4611686018427387904) && dateRangeFacet.Count >= 0 && dateRangeFacet.Count <= 4611686018427387904
+//@   requires dateRangeFacet != nil && forall(k, 0, len(drf), drf[k] != nil && drf[k] != dateRangeFacet && drf[k].Count >= 0 && drf[k].Count <= 2305843009213693952) && dateRangeFacet.Count >= 0 && dateRangeFacet.Count <= 2305843009213693952
 //@   requires forall(p, 0, len(drf), forall(q, p+1, len(drf), drf[p] != drf[q]))
 //@   modifies DateRangeFacet.Count, drf[*]
 //@   ensures implies(forall(k, 0, len(drf), !sameDR(dateRangeFacet, drf[k])), len(result) == len(drf) + 1 && result[len(drf)] == dateRangeFacet && forall(k, 0, len(drf), result[k] == drf[k]) && all(x, *DateRangeFacet, x.Count == old(x.Count)))
